@@ -291,15 +291,13 @@ func c07R1(p *Prog, r *Report) {
 	}
 	r.Check(okRet && nTrue >= 1, rule, "httpproxy.serverHandleBasicAuth:true-only-from-lookup", p.posStr(bauth.Body.Pos()), "returns (name, true) only as the result of a token-map lookup", "serverHandleBasicAuth can report success without the token being in the configured map")
 	// NewProxyServer: map non-nil iff EnableBasicAuth
-	np := p.Func("httpproxy", "ServerConfig", "NewProxyServer")
+	np := p.Inlined(p.Func("httpproxy", "ServerConfig", "NewProxyServer"))
 	ninfo := np.Info()
 	var mk = -1
 	for _, v := range np.G.V {
 		if as, ok := v.Node.(*ast.AssignStmt); ok && len(as.Lhs) == 1 && strings.HasSuffix(exprStr(as.Lhs[0]), ".usernameByToken") {
-			if c, ok := ast.Unparen(as.Rhs[0]).(*ast.CallExpr); ok {
-				if id, ok := ast.Unparen(c.Fun).(*ast.Ident); ok && id.Name == "make" {
-					mk = v.ID
-				}
+			if nonNilMapAt(np, as.Rhs[0], v.ID, 0) {
+				mk = v.ID
 			}
 		}
 	}
@@ -769,4 +767,57 @@ func c07R5(p *Prog, r *Report) {
 	})
 	r.Check(wid >= 1, rule, "socks5.AppendFromReader:widened-length", p.posStr(fc.Body.Pos()), "the domain length byte is widened to int before the +2", "the domain length computation in AppendFromReader is not of the widened form int(b[i]) + k")
 	r.Floor(rule, 1)
+}
+
+// nonNilMapAt: expression e evaluated at vertex at is a freshly made (non-nil) map: make(...)
+// itself, or a local every reaching definition of which is such an expression.
+func nonNilMapAt(fc *FuncCtx, e ast.Expr, at int, depth int) bool {
+	if depth > 4 {
+		return false
+	}
+	info := fc.Info()
+	e = ast.Unparen(e)
+	if c, ok := e.(*ast.CallExpr); ok {
+		if id, ok := ast.Unparen(c.Fun).(*ast.Ident); ok && id.Name == "make" {
+			return true
+		}
+		return false
+	}
+	if _, ok := e.(*ast.CompositeLit); ok {
+		return true
+	}
+	o := objOf(info, e)
+	if o == nil {
+		return false
+	}
+	defs := fc.ReachingDefs(at, o)
+	if len(defs) == 0 {
+		return false
+	}
+	for _, d := range defs {
+		if d == fc.G.Entry {
+			return false
+		}
+		ok := false
+		switch st := fc.G.V[d].Node.(type) {
+		case *ast.AssignStmt:
+			if len(st.Lhs) == len(st.Rhs) {
+				for i, l := range st.Lhs {
+					if objOf(info, l) == o && nonNilMapAt(fc, st.Rhs[i], d, depth+1) {
+						ok = true
+					}
+				}
+			}
+		case *ast.ValueSpec:
+			for i, id := range st.Names {
+				if info.Defs[id] == o && len(st.Values) == len(st.Names) && nonNilMapAt(fc, st.Values[i], d, depth+1) {
+					ok = true
+				}
+			}
+		}
+		if !ok {
+			return false
+		}
+	}
+	return true
 }
